@@ -288,7 +288,9 @@ def kde_multivariate(events_x, events_y, xout=None, yout=None, bw=None):
         bw = (bin_width_doane(events_x) / 2,
               bin_width_doane(events_y) / 2)
 
-    positions = np.vstack([xout.flatten(), yout.flatten()])
+    # one row per position (for an array of shape (2, N), the estimator
+    # has to guess the orientation, which fails for N=2)
+    positions = np.column_stack([xout.flatten(), yout.flatten()])
     estimator_ly = KDEMultivariate(data=[events_x.flatten(),
                                          events_y.flatten()],
                                    var_type='cc', bw=bw)
